@@ -13,7 +13,7 @@ import ast
 import re
 
 from .. import flow
-from ..model import AnalysisError, body_wo_doc, norm
+from ..model import AnalysisError, body_wo_doc, norm, walk_no_nested
 
 FD = 'hszinc/dumper.py'
 
@@ -141,3 +141,42 @@ def document_shaping(model):
         if extra:
             out['extra'].setdefault((key, form), extra)
     return out
+
+
+def mode_sanitised(ctx, rule, modname):
+    """Every public entry accepts the loose mode spellings `_parse_mode` maps ('json', 'JSON', 'zinc', ...).  A function
+    that compares its `mode` argument with MODE_ZINC / MODE_JSON itself must have passed it through `_parse_mode`
+    first: compared raw, 'json' is neither constant and the ZINC (default) arm runs."""
+    m = ctx.model
+    F_ = 'hszinc/%s.py' % modname
+    try:
+        mod = m.mod(modname)
+    except AnalysisError as e:
+        ctx.error(rule, str(e))
+        return
+    n = 0
+    for fn in [x for x in mod.tree.body if isinstance(x, ast.FunctionDef)]:
+        params = [a.arg for a in fn.args.args]
+        if 'mode' not in params or fn.name.startswith('_'):
+            continue
+        cmps = [c for c in walk_no_nested(fn) if isinstance(c, ast.Compare) and isinstance(c.left, ast.Name) and c.left.id == 'mode'
+                and any(norm(x) in ('MODE_ZINC', 'MODE_JSON') or (isinstance(x, (ast.Tuple, ast.List, ast.Set))
+                                                                 and any(norm(e) in ('MODE_ZINC', 'MODE_JSON') for e in x.elts))
+                        for x in c.comparators)]
+        if not cmps:
+            continue
+        n += 1
+        san = [st for st in body_wo_doc(fn) if isinstance(st, ast.Assign) and len(st.targets) == 1 and norm(st.targets[0]) == 'mode'
+               and isinstance(st.value, ast.Call) and norm(st.value.func) == '_parse_mode' and st.value.args
+               and norm(st.value.args[0]) == 'mode']
+        first = min(cmps, key=lambda c: c._seq)
+        if san and san[0]._seq < first._seq:
+            ctx.ob(rule, '%s.%s compares the mode only after _parse_mode' % (modname, fn.name), True, '%s:%d' % (F_, fn.lineno))
+        else:
+            ctx.violation(rule, '%s::%s' % (F_, fn.name), norm(first),
+                          "%s(..., mode='json') (a spelling _parse_mode accepts): `%s` is decided on the raw argument, 'json' is not "
+                          "the constant, and the other format's arm runs -- e.g. a list of grids dumped as JSON objects joined by "
+                          "newlines, which is not a JSON document" % (fn.name, norm(first)),
+                          '%s compares `mode` with the MODE constants before / without mode = _parse_mode(mode)' % fn.name,
+                          file=F_, line=first.lineno, engine='E7')
+    ctx.count('functions of %s that branch on the mode' % modname, n)
